@@ -339,6 +339,10 @@ def r15_4(ctx: Ctx) -> RuleResult:
                 elif isinstance(par, ast.Call) and callee_name(par) in ("append", "insert", "extend", "setdefault", "update") and cur in par.args:
                     sink = par
                     break
+                elif isinstance(par, ast.Call) and callee_name(par) in ("copy", "list", "dict", "tuple", "set") and par.args and par.args[0] is cur:
+                    # a shallow copy: the containers inside the value are still the operation's own
+                    cur = par
+                    continue
                 elif isinstance(par, ast.Call):
                     # passed to some other function (e.g. an equality routine): not a document sink
                     break
